@@ -5,6 +5,10 @@ import json, os, re, sys
 ROOT = os.path.dirname(os.path.dirname(os.path.abspath(__file__)))
 # what happened before the final run (misses that led to stronger checks); kept by hand
 HISTORY = {
+ 'C01-m9': 'round 4: missed at first (no class expression in a for-initialiser before an `in`); caught since the printctx family executes the JsPrintCtx programs in V8',
+ 'C09-m9': 'round 4: missed at first (no escaped $ or { next to a quote change); caught since JsStrQuote.tla (quote x pressure x escape x follower), which also found a genuine defect on the unchanged tree (fixed by 6d9028e; patch re-based)',
+ 'C11-m9': 'round 4: missed at first (no empty style element followed by character data); caught since the svg literal menu has collapsed-empty-style + text/CDATA hosts',
+ 'C19-m9': 'round 4: missed at first (the relation waived the destination of a FAILING bundle); caught since C19Trace demands the original bytes of all sources, and bundles with a failing input onto each of their own sources are driven',
  'C08-m1': 'missed once while the half-ulp relation used the prec-th digit of the output (section 10.8); caught since the relation was corrected',
  'C11-m1': 'missed at first (no typed raw element with empty/unminified body); caught since Embed.tla gained empty/template bodies and UnconsumedTypeDoesNotLeak',
  'C14-m1': 'missed at first (no inputs ending inside unterminated constructs); caught since the every-prefix family',
